@@ -56,7 +56,7 @@ func (sg *sgen) leaf() node {
 	case 2:
 		return node{"Int", "leaf", types.Int(), false, num}
 	case 3:
-		return node{"Float64", "leaf", types.Float64(), false, func(g *storex.GraphGen) any { return hx.Pick(g.R, []float64{0, 1.5, -2}) }}
+		return node{"Float64", "leaf", types.Float64(), false, floatLeaf}
 	case 4:
 		return node{"Bool", "leaf", types.Bool(), false, func(g *storex.GraphGen) any { return g.R.Bool() }}
 	case 5:
@@ -103,7 +103,7 @@ func (sg *sgen) leaf() node {
 	case 18:
 		return node{"String.ToLowerCase", "leaf", types.String().ToLowerCase(), true, func(g *storex.GraphGen) any { return "AbC" }}
 	default:
-		return node{"Number", "leaf", types.Number(), false, func(g *storex.GraphGen) any { return hx.Pick(g.R, []float64{0, 1.5, -2}) }}
+		return node{"Number", "leaf", types.Number(), false, floatLeaf}
 	}
 }
 
@@ -807,4 +807,13 @@ func typedBases() []dbase {
 		{"LazyAny(Any)", func() any { return types.LazyAny(func() any { return types.Any() }) }, nil},
 		{"Function", func() any { return types.Function() }, nil},
 	}
+}
+
+// floatLeaf: an input for a float-typed leaf schema: ordinary numbers and, half of the time, the values on which == and "the
+// same bits" part ways (storex.FloatLeaves: NaN in several bit patterns, -0, the infinities).
+func floatLeaf(g *storex.GraphGen) any {
+	if g.R.Bool() {
+		return hx.Pick(g.R, []float64{0, 1.5, -2})
+	}
+	return hx.Pick(g.R, storex.FloatLeaves)
 }
